@@ -79,6 +79,8 @@ def doalign_instances(tier, ob, prefix):
     tup = [(1, 1, 2, 3, 1), (2, 1, 3, 2, 1)] if tier == "quick" else \
           [(ga, gb, la, lb, last) for ga in (1, 2) for gb in (1, 2) for (la, lb) in ((2, 3), (3, 2), (2, 2)) for last in (0, 1)]
     for ga, gb, la, lb, last in tup:
+      if tier != "quick" and (ga, gb, la, lb) in ((1, 2, 3, 2), (2, 1, 2, 3)):
+          continue   # single sequence longer than the group's rows: no verdict within 3000 s per path in two complete thorough runs (dropped)
       # problem size the DP is handed (do_align swaps so that the first operand is the shorter one / the profile)
       if ga == 1 and gb > 1:
           pla, plb = lb, la
